@@ -173,6 +173,7 @@ def run(run, tier):
                 if len(sers) > 1: stats['multi_series'] += 1
             else:
                 stats['sub_err'] += 1
+            spec_ok = None if spec_ok is None else bool(spec_ok)
             if impl != model or spec_ok is False:
                 mism.append((kind, line, 'impl=%r model=%r spec=%r' % (impl, model, spec), spec_ok))
             elif len(samples) < 2:
@@ -187,6 +188,7 @@ def run(run, tier):
             idx = [i for i, l in enumerate(L) if l >= thr]
             spec_ok = (impl == ('OK', float(times[idx[0]]))) if idx else None
             stats['ts'] += 1
+            spec_ok = None if spec_ok is None else bool(spec_ok)
             if impl != model or spec_ok is False:
                 mism.append((kind, line, 'impl=%r model=%r' % (impl, model), spec_ok))
         elif kind == 'deg':
@@ -243,6 +245,7 @@ def run(run, tier):
             model = [float(F(z)) for z in tk[1:i_psi]] + [float(F(z)) for z in tk[i_psi + 1:i_r0]] + [float(F(tk[i_r0 + 1]))]
             stats['deg'] += 1
             same = impl[0] == 'OK' and len(impl[1]) == len(model) and all(C.close(a, b) for a, b in zip(impl[1], model))
+            spec_ok = None if spec_ok is None else bool(spec_ok)      # numpy.bool_ is not the object False
             if not same or spec_ok is False:
                 mism.append((kind, line, 'impl=%r model=%r' % (impl, model), spec_ok))
             elif len(samples) < 4:
@@ -260,6 +263,7 @@ def run(run, tier):
             model = [float(F(z)) for z in mo.split()[1:]]
             stats['pnk'] += 1
             same = impl[0] == 'OK' and len(impl[1]) == len(model) and all(C.close(a, b) for a, b in zip(impl[1], model))
+            spec_ok = None if spec_ok is None else bool(spec_ok)      # numpy.bool_ is not the object False
             if not same or spec_ok is False:
                 mism.append((kind, line, 'impl=%r model=%r' % (impl, model), spec_ok))
 
